@@ -135,6 +135,8 @@ type world struct {
 	period  uint64 // epochs per sync committee period
 	seed    uint64
 
+	startEpoch uint64
+
 	cluster  []*val
 	others   []*val
 	universe []*val
@@ -212,11 +214,15 @@ func (w *world) sync(epoch uint64, v *val) (eth2v1.SyncCommitteeDuty, bool) {
 // answerSet: the validators whose table records the beacon puts into a duties response.
 //   - a validator active in the epoch: when asked for (and, as an extra, when not asked for);
 //   - a validator outside the cluster: when asked for or as an extra;
-//   - a cluster validator that is NOT active in the epoch: only if no validators response so far
-//     reported it active and its activation epoch is not the requested epoch, i.e. only when a correct
-//     scheduler can not have it in its active set (statuses are monotone, the activation epoch is
-//     constant): when asked for by a "lenient" beacon, or as an unrequested extra. Such a record is
-//     bogus: the oracle expects it never to be triggered.
+//   - a cluster validator that is NOT active in the epoch: only if it is active in no epoch of the run
+//     (pending for ever, unknown to the chain, exited before the run) and its activation epoch is not
+//     the requested epoch, i.e. only when a correct scheduler can never have it in its active set, not
+//     even later when the duties cache serves a retained copy of the record: when asked for by a
+//     "lenient" beacon, or as an unrequested extra. Such a record is bogus: the oracle expects it never
+//     to be triggered. (Bogus records for validators that activate later in the run would be unsound:
+//     the duties cache keeps unrequested records, and a resolution of epoch E that is delayed into
+//     epoch E+1 uses the head statuses of E+1, so the stub itself would have manufactured a duty in E
+//     for a validator that its own chain activates in E+1.)
 func (w *world) answerSet(epoch uint64, req []eth2p0.ValidatorIndex) []*val {
 	var out []*val
 	for _, v := range w.universe {
@@ -233,7 +239,7 @@ func (w *world) answerSet(epoch uint64, req []eth2p0.ValidatorIndex) []*val {
 			if asked || w.extras {
 				out = append(out, v)
 			}
-		case !w.everActive[v.vidx] && v.act != epoch:
+		case w.neverActive(v) && !w.everActive[v.vidx] && v.act != epoch:
 			if asked {
 				verifrt.Probe("scheduler-asked-for-never-active-validator")
 			}
@@ -244,6 +250,11 @@ func (w *world) answerSet(epoch uint64, req []eth2p0.ValidatorIndex) []*val {
 		}
 	}
 	return out
+}
+
+// neverActive: no epoch from the run's first epoch on in which the validator is active.
+func (w *world) neverActive(v *val) bool {
+	return !v.known || v.act == farFuture || v.exit <= v.act || v.exit <= w.startEpoch
 }
 
 func names(vs []*val) string {
@@ -540,6 +551,7 @@ func body(c *kernel.Ctx) {
 	w.slotDur = time.Duration(4+verifrt.Intn("cfg", 9)) * time.Second
 	nEpochs := 3 + verifrt.Intn("cfg", 4)
 	startEpoch := uint64(verifrt.Intn("cfg", 5))
+	w.startEpoch = startEpoch
 	startInEpoch := uint64(verifrt.Intn("cfg", int(w.spe)))
 	intoSlot := w.slotDur * time.Duration(verifrt.Intn("cfg", 1000)) / 1000
 	w.genesis = w.t0.Add(-time.Duration(startEpoch*w.spe+startInEpoch)*w.slotDur - intoSlot)
